@@ -14,6 +14,7 @@ for id in "$@"; do
   rc=$?
   nv=$(grep -c '^VIOLATION' "$OUT/$id.log")
   echo "$(basename "$(dirname "$P")")/$(basename "$P") $id exit=$rc violations=$nv $(grep -m1 '^VIOLATION' "$OUT/$id.log" | cut -c1-220)"
+  if [ "$rc" != 0 ] && [ "$rc" != 1 ]; then echo "--- tail of $id log (exit $rc)"; tail -25 "$OUT/$id.log" | cut -c1-300; echo "---"; fi
 done
 git -C /repo worktree remove --force "$WT"
 rm -rf "$OUT"
